@@ -9,6 +9,11 @@ def check(run):
     ctlfam.model(run, INV, PROP, nonvacuity=['NV_NoRaise'])
     traces = ctlfam.drive_and_validate(run, 'C02', INV, PROP, n_hist=run.pick(480, 8000), hist_len=run.pick(60, 120),
                                        replay_num=run.pick(150, 1500), replay_depth=14)
+    # Run mode: the real controller.Run (start-up path included: attach, limits, the two goroutines) behind stalling plants
+    import vlib
+    rtraces = run.drive('TestDriveC10Run', 16, lambda i: dict(VERIF_SEED=run.seed * 1000 + 400 + i, VERIF_N=run.pick(3, 60)), 'c02run', timeout=3000)
+    run.validate('Monitor_Stall', vlib.cfg(invariants=['Report', 'C02_NeverBelowMinRun'], post='TraceAccepted'), rtraces, 'monstall')
+    run.cov['run_mode_scenarios'] = ctlfam.count_events(rtraces, lambda ln: '"ev":"Begin"' in ln)
     cycles = ctlfam.count_events(traces, lambda ln: '"ev":"Cycle"' in ln)
     raises = ctlfam.count_events(traces, lambda ln: '"ev":"Cycle"' in ln and '"avgm2":1000' in ln and '"raises":0' not in ln)
     if raises < 20:
